@@ -141,7 +141,7 @@ class Ctx:
             c = self.extra.setdefault("collected", {})
             k = f"{clause}|{key}"
             if k not in c:
-                c[k] = {"count": 0, "example": msg[:600], "case": jsonable.to_plain(case if case is not None else self._cur_case)}
+                c[k] = {"count": 0, "example": msg[:600], "check": self._cur_check, "case": jsonable.to_plain(case if case is not None else self._cur_case)}
             c[k]["count"] += 1
             return
         if sig in self._reported:
